@@ -53,6 +53,7 @@ type PType struct {
 	Name string `json:"name"`
 	Kind string `json:"kind"` // n s g i (defined)  a (alias)  l (function-local)  p (type parameter of a generic func)
 	Tags []PTag `json:"tags,omitempty"`
+	In   string `json:"in,omitempty"` // declared in this extra file of the package instead of a.go (e.g. the earlier output of a generator)
 }
 
 type PPkg struct {
@@ -62,6 +63,7 @@ type PPkg struct {
 	Types   []PType  `json:"types"`
 	Extra   []string `json:"extra,omitempty"` // pre-existing extra files
 	Edit    int      `json:"edit,omitempty"`  // content variant of an extra source file (history steps change it)
+	LineDir bool     `json:"linedir,omitempty"` // the extra .go files open with a //line directive ahead of the package clause (earlier outputs name a template, extra.go names the output of a generator in a neighbouring package)
 }
 
 type PGen struct {
@@ -168,7 +170,17 @@ func (p PPkg) source() string {
 	inA, _ := p.docSplit()
 	b.WriteString(tagLines(inA, ""))
 	fmt.Fprintf(&b, "package %s\n\n", p.Dir)
+	b.WriteString(p.decls(""))
+	return b.String()
+}
+
+// decls: the declarations of the package's types that stand in file `in` ("" = a.go)
+func (p PPkg) decls(in string) string {
+	var b strings.Builder
 	for _, t := range p.Types {
+		if t.In != in {
+			continue
+		}
 		switch t.Kind {
 		case "n":
 			b.WriteString(tagLines(t.Tags, ""))
@@ -264,8 +276,8 @@ func (s *PScn) materialise(dir string) error {
 				content = tagLines(inDoc, "") + content
 			}
 			if strings.HasPrefix(e, pipeBase+".") && strings.HasSuffix(e, ".go") {
-				// an output of an earlier generation, longer than anything this run writes
-				content += "\n" + strings.Repeat("// line of an earlier generation\nvar _ = 0\n\n", 30)
+				// an output of an earlier generation, longer than anything this run writes; it may declare types of the package
+				content += "\n" + p.decls(e) + strings.Repeat("// line of an earlier generation\nvar _ = 0\n\n", 30)
 			}
 			switch {
 			case strings.HasSuffix(e, "_test.go"):
@@ -275,6 +287,18 @@ func (s *PScn) materialise(dir string) error {
 				}
 			default:
 				content = fmt.Sprintf("not go %d\n", p.Edit)
+			}
+			if p.LineDir && strings.HasSuffix(e, ".go") {
+				// positions in this file are reported under another name; the file is still this file
+				other := "ghost"
+				if len(s.Pkgs) > 1 {
+					other = s.Pkgs[(i+1)%len(s.Pkgs)].Dir
+				}
+				if e == "extra.go" {
+					content = "//line ../" + other + "/" + pipeBase + ".rec.go:1\n" + content
+				} else if strings.HasPrefix(e, pipeBase+".") {
+					content = "//line templates/" + strings.TrimSuffix(e, ".go") + ".tmpl:1\n" + content
+				}
 			}
 			if err := os.WriteFile(filepath.Join(pd, e), []byte(content), 0o644); err != nil {
 				return err
